@@ -189,22 +189,23 @@ theorem pe_security_dir_sound_partial (sz va n : BitVec 64) (hs : sz.toNat < 2 ^
 
 /-- dotnet.c blob tests. `blob_offset`/`offset` are pointers formed from file fields, lengths are 32-bit; the additions
     on the left cannot wrap when the buffer does not end within 4 GiB of the top of the address space (`hv`), and the
-    pointer is known to be ≥ `data` from the preceding `fits_in_pe` (`hp`). PARTIAL w.r.t. plain allocation validity. -/
+    pointer is known to be ≥ `data` from the preceding `fits_in_pe` (`hp`). PARTIAL w.r.t. plain allocation validity.
+    (Conclusions are the access ranges `[p, p+n) ⊆ buffer`, i.e. `≤`: a `>=`/`>` variation of the C test that keeps the access inside is not an alarm.) -/
 theorem dotnet_blob4_sound_partial (data sz p : BitVec 64) (hv : data.toNat + sz.toNat + 2 ^ 32 ≤ 2 ^ 64) (hp : p.toNat ≤ data.toNat + sz.toNat)
-    (h : dotnet_blob4_ok data sz p = true) : p.toNat + 4 < data.toNat + sz.toNat := by
+    (h : dotnet_blob4_ok data sz p = true) : p.toNat + 4 ≤ data.toNat + sz.toNat := by
   simp only [dotnet_blob4_ok, decide_eq_true_eq, BitVec.lt_def, BitVec.toNat_add] at h
   have h4 : (4#64).toNat = 4 := by decide
   omega
 
 theorem dotnet_blob_entry_sound_partial (data sz p n : BitVec 64) (hv : data.toNat + sz.toNat + 2 ^ 32 ≤ 2 ^ 64)
     (hp : p.toNat ≤ data.toNat + sz.toNat) (hn : n.toNat < 2 ^ 32)
-    (h : dotnet_blob_entry_outside data sz p n = false) : p.toNat + n.toNat < data.toNat + sz.toNat := by
+    (h : dotnet_blob_entry_outside data sz p n = false) : p.toNat + n.toNat ≤ data.toNat + sz.toNat := by
   simp only [dotnet_blob_entry_outside, decide_eq_false_iff_not, BitVec.le_def, BitVec.toNat_add] at h
   omega
 
 theorem dotnet_attr_blob_sound_partial (data sz p n : BitVec 64) (hv : data.toNat + sz.toNat + 2 ^ 32 ≤ 2 ^ 64)
     (hp : p.toNat ≤ data.toNat + sz.toNat) (hn : n.toNat < 2 ^ 32)
-    (h : dotnet_attr_blob_reject data sz p n = false) : 3 ≤ n.toNat ∧ p.toNat + n.toNat < data.toNat + sz.toNat := by
+    (h : dotnet_attr_blob_reject data sz p n = false) : 3 ≤ n.toNat ∧ p.toNat + n.toNat ≤ data.toNat + sz.toNat := by
   simp only [dotnet_attr_blob_reject, Bool.or_eq_false_iff, decide_eq_false_iff_not, BitVec.le_def, BitVec.lt_def, BitVec.toNat_add] at h
   have h3 : (3#64).toNat = 3 := by decide
   omega
